@@ -94,7 +94,8 @@ func verifSignedCall(w *verifWorld, ep int, alt int, svc *pool.VerifHost) error 
 	}
 	switch ep {
 	case 0: // vipnode_connect
-		req := pool.ConnectRequest{NodeInfo: ethnode.UserAgent{Kind: ethnode.Geth, IsFullNode: verifapi.Bool("full")}, Payout: wal}
+		// the pool may be restricted to one Ethereum network; the node claims that network or none
+		req := pool.ConnectRequest{NodeInfo: ethnode.UserAgent{Kind: ethnode.Geth, IsFullNode: verifapi.Bool("full"), Network: ethnode.NetworkID(verifapi.Choose("claimed-network", 2))}, Payout: wal}
 		signed := req
 		if alt == altParams {
 			signed.Payout = otherWal
@@ -170,6 +171,7 @@ func (w *verifWorld) hostCalls() int {
 
 func verifEndpointWorld(track bool) *verifWorld {
 	w := verifBuildWorld(newVerifStore(), 2, nil, big.NewInt(100000000000))
+	w.p.RestrictNetwork = ethnode.NetworkID(verifapi.Choose("restrict-network", 2)) // unrestricted, or mainnet only
 	w.pay.Settle = verifSettleStub(w, "settlefails")
 	// node 0 tracks node 1 (so that updates and peer requests have something to act on)
 	if track {
